@@ -4,6 +4,7 @@ package main
 
 import (
 	"fmt"
+	"strings"
 	"go/constant"
 	"go/token"
 	"go/types"
@@ -35,7 +36,19 @@ func (f *Frame) execValue(n *xnode, st *execState, ins ssa.Value) Val {
 		case token.MUL:
 			addr := xv.(Scalar).T
 			f.nilCheck(st, x.X, addr, x.Pos())
-			return e.load(st.mem, addr, x.Type())
+			v := e.load(st.mem, addr, x.Type())
+			// every slice / string value of a well-typed program has
+			// 0 <= len (<= cap); not assumed for values reinterpreted through
+			// unsafe.Pointer conversions
+			if _, viaUnsafe := x.X.(*ssa.Convert); !viaUnsafe {
+				switch s := v.(type) {
+				case SliceV:
+					e.assume(tb.Implies(st.reach, tb.And(tb.Sle(tb.ConstU(0, 64), s.Len), tb.Sle(s.Len, s.Cap), tb.Ule(s.Cap, tb.ConstU(addrLimit, 64)))))
+				case StringV:
+					e.assume(tb.Implies(st.reach, tb.And(tb.Sle(tb.ConstU(0, 64), s.Len), tb.Ule(s.Len, tb.ConstU(addrLimit, 64)))))
+				}
+			}
+			return v
 		}
 		panic(fmt.Sprintf("unsupported unop %s", x.Op))
 	case *ssa.Convert:
@@ -138,6 +151,7 @@ func (f *Frame) execValue(n *xnode, st *execState, ins ssa.Value) Val {
 		for i, b := range x.Bindings {
 			free[i] = f.operand(st.env, b)
 		}
+		f.closurePreconditions(st, fn, free, x)
 		return FuncV{Fn: fn, Free: free, Handle: tb.Fresh("closure."+fn.Name(), BV(64))}
 	case *ssa.Call:
 		return f.call(st, x)
@@ -639,3 +653,27 @@ func (f *Frame) typeAssert(st *execState, x *ssa.TypeAssert) Val {
 }
 
 var _ = big.NewInt
+
+// closurePreconditions: "requires" clauses of a closure's contract that speak
+// only about captured variables are obligations where the closure is created
+// (they are assumed stable until the closure runs: recorded as trusted).
+func (f *Frame) closurePreconditions(st *execState, fn *ssa.Function, free []Val, x *ssa.MakeClosure) {
+	e := f.e
+	con := e.contractFor(fnName(fn))
+	if con == nil || len(con.Requires) == 0 {
+		return
+	}
+	sc := &Scope{e: e, vars: map[string]SV{}, mem: st.mem, oldMem: st.mem, gh: st.gh, oldGh: st.gh, pkg: fn.Pkg.Pkg}
+	for i, fv := range fn.FreeVars {
+		sc.vars[fv.Name()] = e.svOf(free[i], fv.Type())
+	}
+	for _, r := range con.Requires {
+		if r.Label == "" || !strings.HasPrefix(r.Label, "capture") {
+			continue
+		}
+		sc.goal = true
+		g := e.evalBool(sc, r.Expr, r.Text)
+		f.oblige(st, "requires", "closure."+fn.Name()+"."+r.Label, st.reach, g, x.Pos(), "precondition of closure "+fn.Name()+" at creation: "+r.Text)
+		e.trusted["closure preconditions labelled capture-* are established at creation and assumed to still hold when the closure is called"] = true
+	}
+}
